@@ -7,20 +7,22 @@ import os
 import re
 import shutil
 import tempfile
+from pathlib import Path
 
 from vsym.pathex import And, Eq, Or
 from vsym.runner import Ob
 from vsym import catalogue
 
 RULES = ("nesting.excessive-depth", "srp.violation", "magic-numbers.numeric-literal")
-TEXTS = ("plain", 'quote " and \\ backslash', "non-ascii é 日本 ✓", "two\nlines", "tab\tx", "bad byte \udcff in a name")
+TEXTS = ("plain", 'quote " and \\ backslash', "non-ascii é 日本 ✓", "two\nlines", "tab\tx", "bad byte \udcff in a name",
+         "lone surrogate \ud83d from a string literal")
 PATHS = ("src/a.py", "dir with space/é.py", "/abs/x.ts", "dir/bad\udcff.py")
 
 
 def _shown(text):
     """What every rendering shows for text taken from undecodable file names / contents (surrogate-escaped
     bytes cannot be written as UTF-8): the same replacement in all three formats."""
-    return text.encode("utf-8", errors="surrogateescape").decode("utf-8", errors="replace")
+    return "".join("\ufffd" if 0xD800 <= ord(c) <= 0xDFFF else c for c in text)
 
 
 class _Rec:
@@ -67,6 +69,9 @@ def h_formatters(ctx):
         s_out = list(echoed); echoed.clear()
         cu.format_violations(vs, "text")
         t_out = list(echoed); echoed.clear()
+    except UnicodeError as e:
+        ctx.require("every-rendering-completes", False, error=repr(e)[:160], texts=[(s_[1], s_[4]) for s_ in spec])
+        return
     finally:
         cu.json, click.echo = real_json, real_echo
     if rec:
@@ -179,6 +184,71 @@ def h_invalid_options(ctx):
     ctx.cover("exit%d" % res.exit_code)
     ctx.require("no-uncaught-exception", res.exception is None or isinstance(res.exception, SystemExit), exc=repr(res.exception))
     ctx.require("invalid-option-value-exits-2", res.exit_code == 2, got=res.exit_code, args=args[:-1], out=res.output[-200:])
+
+
+# ---------------------------------------------------------------- invalid VALUES in a well-formed config file
+# (command, section, yaml body lines below the section header) -- every entry carries a value its linter documents as invalid
+THRESHOLD_KEYS = (
+    ("nesting", "nesting", "max_nesting_depth"), ("srp", "srp", "max_methods"), ("srp", "srp", "max_loc"),
+    ("dry", "dry", "min_duplicate_lines"), ("dry", "dry", "min_occurrences"), ("dry", "dry", "min_duplicate_tokens"),
+    ("magic-numbers", "magic-numbers", "max_small_integer"), ("stringly-typed", "stringly-typed", "min_occurrences"),
+    ("pipeline", "collection-pipeline", "min_continues"),
+)
+BAD_NUMBERS = ("0", "-1", "abc", "[1]", "{a: 1}")
+BAD_REGEX = "'*.tmp.py'"
+PLACEMENT_BODIES = {        # name -> lines of the file-placement section; each holds ONE invalid rule
+    "global_deny": ["  global_deny:", "    - pattern: @", "      reason: r"],
+    "global_patterns.deny-without-allow": ["  global_patterns:", "    deny:", "      - pattern: @", "        reason: r"],
+    "global_patterns.allow-only": ["  global_patterns:", "    allow:", "      - @"],
+    "global_patterns.deny-with-allow": ["  global_patterns:", "    allow:", "      - '.*'", "    deny:", "      - pattern: @", "        reason: r"],
+    "directories.src.allow": ["  directories:", "    src:", "      allow:", "        - @"],
+    "directories.src.deny-without-allow": ["  directories:", "    src:", "      deny:", "        - pattern: @", "          reason: r"],
+    "directories.src.deny-with-allow": ["  directories:", "    src:", "      allow:", "        - '.*'", "      deny:", "        - pattern: @", "          reason: r"],
+    "directories.second-entry-after-an-allow-only-entry": ["  directories:", "    docs:", "      allow:", "        - '.*'", "    src:", "      deny:", "        - pattern: @", "          reason: r"],
+    "directories.second-entry-after-a-deny-only-entry": ["  directories:", "    docs:", "      deny:", "        - pattern: 'zzz'", "          reason: r", "    src:", "      allow:", "        - @"],
+    "deny-rule-without-a-pattern": ["  global_deny:", "    - reason: no pattern given"],
+}
+
+
+def h_invalid_config_values(ctx):
+    """A parsable configuration whose value is one the linter documents as invalid (a non-positive or non-numeric
+    threshold, a regular expression that does not compile, a deny rule without a pattern) is a malformed config:
+    the command exits 2 in every format and through every carrier -- it never ends with 0 and an empty report."""
+    from click.testing import CliRunner
+    from src.cli_main import cli
+    import src.linter_config.ignore as ign
+    kind = ctx.pick("kind", ("threshold", "file-placement-rule"))
+    fmt = ctx.pick("format", ("text", "json", "sarif"))
+    carrier = ctx.pick("carrier", (".thailint.yaml", "--config"))
+    if kind == "threshold":
+        cmd, section, key = ctx.pick("key", THRESHOLD_KEYS)
+        value = ctx.pick("value", BAD_NUMBERS)
+        lines = ["%s:" % section] + (["  enabled: true"] if section == "dry" else []) + ["  %s: %s" % (key, value)]
+    else:
+        cmd = "file-placement"
+        name = ctx.pick("rule_position", tuple(PLACEMENT_BODIES))
+        lines = ["file-placement:"] + [l.replace("@", BAD_REGEX) for l in PLACEMENT_BODIES[name]]
+    src0 = triggers_project()
+    d = Path(tempfile.mkdtemp(prefix="c06cfg-"))
+    try:
+        (d / ".git").mkdir()
+        shutil.copytree(src0 / "src", d / "src")
+        (d / "docs").mkdir()
+        (d / "docs" / "x.md").write_text("# x\n")
+        args = [cmd, "--format", fmt]
+        if carrier == "--config":
+            (d / "custom.yaml").write_text("\n".join(lines) + "\n")
+            args += ["--config", str(d / "custom.yaml")]
+        else:
+            (d / ".thailint.yaml").write_text("\n".join(lines) + "\n")
+        ign.clear_ignore_parser_cache()
+        res = CliRunner().invoke(cli, ["--project-root", str(d)] + args + [str(d)], catch_exceptions=True)
+    finally:
+        shutil.rmtree(d, True)
+        ign.clear_ignore_parser_cache()
+    ctx.cover("exit%d" % res.exit_code)
+    ctx.require("no-uncaught-exception", res.exception is None or isinstance(res.exception, SystemExit), exc=repr(res.exception))
+    ctx.require("invalid-config-value-exits-2", res.exit_code == 2, got=res.exit_code, config=lines, out=res.output[-200:])
 
 
 _TP = {}
@@ -321,6 +391,15 @@ def obligations(tier):
                       "<Linter>Config.__post_init__ validation", "handle_linting_error"],
            bounds="forked: every numeric option x values {0, -1, -999, abc, 1.5, ''} x 3 formats x the command's other numeric options {absent, same invalid value, valid value}; real lint run on a project that triggers the linters",
            timeout=600, workers=14, must_cover=("exit2",)),
+        Ob(name="K2d-invalid-config-values", engine="pathex", harness=h_invalid_config_values,
+           functions=["<Linter>Config.__post_init__/from_dict validation (nesting, srp, dry, magic-numbers, stringly-typed, collection-pipeline)",
+                      "core.linter_utils.require_number", "file_placement.PatternValidator.validate_config (+helpers)", "FilePlacementRule config loading",
+                      "Orchestrator._safe_check_rule (ValueError propagation)", "handle_linting_error"],
+           bounds="forked: %d threshold keys x values {%s}; %d positions of an uncompilable regex / pattern-less deny rule in a file-placement "
+                  "section; x 3 formats x {.thailint.yaml, --config}; real lint run on a project that triggers the linters"
+                  % (len(THRESHOLD_KEYS), ", ".join(BAD_NUMBERS), len(PLACEMENT_BODIES)),
+           timeout=600, workers=14, must_cover=("exit2",),
+           outside="structural type errors of whole sections (a section that is a scalar, `directories: 5`); unknown keys"),
         Ob(name="K2-exit-codes-every-command", engine="pathex", harness=h_exit_codes,
            functions=["every click command under src.cli.linters (via src.cli_main.cli)", "_execute_*_lint",
                       "_run_*_lint filters", "run_linter_command", "handle_linting_error",
